@@ -17,8 +17,8 @@
       loop 3: `Deleted` → `del out[k]` when present.
     On a non-dict content (reachable through `._mapper` entries) the exceptions Python raises are modelled
     with their class (`TypeError` / `AttributeError`).
-  * `convert_dict(d, ms)`: `start = d.get("version", 1)`; `for offset, m in enumerate(ms[start-1:])` (Python slice
-    semantics, also for `start ≤ 0`): `x = _convert(x, m)`; `x["version"] = start + offset + 1` — the version is
+  * `convert_dict(d, ms)`: `start = d.get("version", 1)`; an int (bool included) below 1 is rejected with ValueError;
+    `for offset, m in enumerate(ms[start-1:])`: `x = _convert(x, m)`; `x["version"] = start + offset + 1` — the version is
     counted by `convert_dict` itself, whatever the mapping did to the `version` key (typedpy commit f017e49).
 
   Documents are JSON values (floats as exact ratios); objects are association lists in Python's insertion order (`set` replaces in
@@ -328,7 +328,8 @@ def runSteps : List Mapping → Int → Json → R Json
 /-- `convert_dict(the_dict, versions_mapping)` -/
 def convertDict (d : Json) (ms : List Mapping) : R Json :=
   match d with
-  | .obj kvs => bindE (startVersion kvs) fun v => runSteps (pySliceFrom (v - 1) ms) v d
+  | .obj kvs => bindE (startVersion kvs) fun v =>
+      if v < 1 then .error (.other "ValueError") else runSteps (pySliceFrom (v - 1) ms) v d
   | _ => .error .attrErr
 
 /-- Aeneas-style view: the result together with the post-states of both arguments.  `convert_dict` works on
@@ -345,8 +346,15 @@ def convertDictSt (d : Json) (ms : List Mapping) : R Json × Json × List Mappin
 def versionedInitKw (ms : Option (List Mapping)) (kw : Obj) : Obj :=
   set "version" (.int ((ms.getD []).length + 1)) kw
 
+/-- `isinstance(v, int) and v < 1` (a bool is an int) -/
+def nonPositiveVersion (x : Json) : Bool :=
+  match versionInt x with
+  | some v => decide (v < 1)
+  | none => false
+
 /-- prologue of `deserialize_structure_internal` for `issubclass(cls, Versioned)`; `rest` is the remainder of
     deserialization (a function of `input_dict` for a fixed class and fixed flags).
+    an int `version` below 1 is rejected with ValueError (also with an empty history);
     `getattr(cls, "_versions_mapping", None)`: a class without the attribute (`none`) behaves like one with the
     empty history — falsy, no conversion. -/
 def deserVersioned {α} (rest : Json → α) (ms : Option (List Mapping)) (d : Json) : R α :=
@@ -354,19 +362,22 @@ def deserVersioned {α} (rest : Json → α) (ms : Option (List Mapping)) (d : J
   | .obj kvs =>
     match get "version" kvs with
     | none => .error .typeErr
-    | some _ =>
+    | some x =>
+      if nonPositiveVersion x then .error (.other "ValueError") else
       match ms with
       | none => .ok (rest d)
       | some [] => .ok (rest d)
       | some (m :: r) => bindE (convertDict d (m :: r)) fun d' => .ok (rest d')
   | _ => .error .typeErr
 
-/-- `Deserializer.deserialize`: `keep_undefined=None` stays falsy when the class allows additional properties
-    and becomes `True` otherwise; an explicit value is passed on -/
-def adjustedKeep (keep : Option Bool) (addl : Bool) : Bool :=
+/-- `Deserializer.deserialize`: an explicit `keep_undefined` is passed on; `None` stays falsy when the class allows
+    additional properties and otherwise becomes `not ignore_invalid_additional_properties_in_deserialization`, i.e.
+    `False` with the global flag at its default (typedpy commit 005d815; before it became `True`, which nested
+    classes then inherited) -/
+def adjustedKeep (keep : Option Bool) (_addl : Bool) : Bool :=
   match keep with
   | some b => b
-  | none => !addl
+  | none => false
 
 /-- the undeclared keys `deserialize_structure_internal` hands to the constructor (`kwargs = {k: v for k, v in
     input_dict.items() if k not in field_by_name and keep_undefined and (additional_props is True or not
